@@ -163,6 +163,24 @@ def run(case, rec):
             rec.check(bool(np.all(np.abs(np.asarray(cs.result, float).ravel() - exp[3]) <= 1e-12 * (R + np.abs(pos).max()))),
                       "interface-position", f"scalar-argument interface_position differs from the array one; {label}")
 
+    if dim == 3:
+        # ---- the polar angle may be omitted and then counts as 0 (documented): same shape functions
+        zero = np.zeros_like(theta)
+        rel0 = rel_at(case, theta, zero)
+        unit0 = np.stack([np.sin(theta), zero, np.cos(theta)], axis=-1)
+        c = common.monitored(rec, "interface_distance(phi omitted)", d.interface_distance, theta)
+        if rec.check(c.ok, "no-exception", f"interface_distance(theta) raised {common.exc_text(c.exc) if c.exc else ''}; {label}"):
+            rec.check(bool(np.allclose(c.result, R * rel0, rtol=1e-12, atol=1e-13 * R)), "interface-distance",
+                      f"interface_distance with the polar angle omitted {np.asarray(c.result)[:3].tolist()} != series at phi=0 "
+                      f"{(R * rel0)[:3].tolist()}; {label}")
+        c = common.monitored(rec, "interface_position(phi omitted)", d.interface_position, theta)
+        if rec.check(c.ok, "no-exception", f"interface_position(theta) raised {common.exc_text(c.exc) if c.exc else ''}; {label}"):
+            exp0 = pos[None, :] + (R * rel0)[:, None] * unit0
+            got = np.asarray(c.result, float)
+            rec.check(got.shape == exp0.shape and bool(np.all(np.abs(got - exp0) <= 1e-12 * (R + np.abs(pos).max()))),
+                      "interface-position", f"interface_position with the polar angle omitted differs from centre + "
+                      f"distance*direction at phi=0; {label}")
+
     if kind == "shape":
         # ---- exact volume / surface
         if dim == 2:
